@@ -1,12 +1,15 @@
-(** C01 — tolerant mode.  The clause "children lie inside the parent's span" is
-    FALSE of the model (and of the code) for whatever tolerant mode returns: the
-    recovery of a missing required delimited argument records an empty node list
-    positioned AFTER the whitespace in front of the offending token, but moves
-    the reader back BEFORE that whitespace, so the macro node ends before its
-    argument starts.  Witness below. *)
+(** C01 — tolerant mode.  The clause "children lie inside the parent's span",
+    as the property states it ([in_range_nested]), for whatever tolerant mode
+    returns: it follows from [ParserSpansTolerant.tol_node] (which is stronger:
+    the children are moreover in document order and pairwise non-overlapping).
+    It used to be false: the recovery of a missing required delimited argument
+    recorded an empty node list AFTER the whitespace in front of the offending
+    token while the reader is moved back BEFORE it; since repo fix d89cd3a the
+    placeholder sits where the reader is rewound to.  The former witness is
+    kept below as an example. *)
 From Coq Require Import NArith List Bool Arith Lia.
 From PLV Require Import Base.PyStr Tok.PState Tok.Tokenizer Parse.Nodes Parse.Parser Parse.ParseWire
-  Proofs.ParserSpansDefs.
+  Proofs.ParserSpansDefs Proofs.ParserSpansTolerant.
 Import ListNotations.
 
 (** the tolerant clause of the property: in range, children inside the parent *)
@@ -58,11 +61,116 @@ Definition cx_required : context :=
 (** the input [\, x] *)
 Definition s_required : str := [92; 44; 32; 120]%N.
 
-Theorem tolerant_nested_refuted :
-  exists cx s n p,
-    parse_top s true cx (walker_state cx) = Ok (ONode (Some n)) p /\ ~ in_range_nested s n.
+(** * [tol_node] implies the clause *)
+Definition nested_items (s : str) : list (option node) -> Prop :=
+  fix ni (l : list (option node)) : Prop :=
+    match l with
+    | [] => True
+    | None :: r => ni r
+    | Some x :: r => in_range_nested s x /\ ni r
+    end.
+
+Lemma irn_group s p e m dl dr b :
+  in_range_nested s (NGroup p e m dl dr b) =
+  (p <= e /\ e <= length s /\ all_inside p e (body_items b) /\
+   match b with Some x => in_range_nested s x | None => True end).
+Proof. reflexivity. Qed.
+Lemma irn_math s p e m d dl dr b :
+  in_range_nested s (NMath p e m d dl dr b) =
+  (p <= e /\ e <= length s /\ all_inside p e (body_items b) /\
+   match b with Some x => in_range_nested s x | None => True end).
+Proof. reflexivity. Qed.
+Lemma irn_macro s p e m nm po a :
+  in_range_nested s (NMacro p e m nm po a) =
+  (p <= e /\ e <= length s /\
+   match a with None => True | Some (_, l) => all_inside p e l /\ nested_items s l end).
+Proof. reflexivity. Qed.
+Lemma irn_specials s p e m c a :
+  in_range_nested s (NSpecials p e m c a) =
+  (p <= e /\ e <= length s /\
+   match a with None => True | Some (_, l) => all_inside p e l /\ nested_items s l end).
+Proof. reflexivity. Qed.
+Lemma irn_env s p e m nm a b :
+  in_range_nested s (NEnv p e m nm a b) =
+  (p <= e /\ e <= length s /\ all_inside p e (arg_items a ++ body_items b) /\
+   match a with None => True | Some (_, l) => nested_items s l end /\
+   match b with Some x => in_range_nested s x | None => True end).
+Proof. reflexivity. Qed.
+Lemma irn_list s a b items :
+  in_range_nested s (NList a b items) =
+  (match a, b with
+   | Some x, Some y => x <= y /\ y <= length s /\ all_inside x y items
+   | _, _ => True
+   end /\ nested_items s items).
+Proof. reflexivity. Qed.
+
+Lemma chain_all_inside lo' lo hi l : lo' <= lo -> chain lo hi l -> all_inside lo' hi l.
 Proof.
-  exists cx_required, s_required.
-  eexists. eexists. split; [vm_compute; reflexivity|].
-  cbn. intros H. decompose [and] H. lia.
+  revert lo. induction l as [|[n|] l IH]; intros lo LE; cbn [chain all_inside]; auto.
+  - destruct (nspan n) as [[a b]|]; [|tauto]. intros (A & B & C).
+    pose proof (chain_le _ _ _ C). split; [lia|]. apply (IH b); [lia|exact C].
+  - apply IH. exact LE.
 Qed.
+
+Lemma all_inside_app p e l1 l2 : all_inside p e l1 -> all_inside p e l2 -> all_inside p e (l1 ++ l2).
+Proof. induction l1 as [|[n|] l1 IH]; cbn [app all_inside]; tauto. Qed.
+
+Lemma nested_items_of s l : (forall k, In (Some k) l -> in_range_nested s k) -> nested_items s l.
+Proof.
+  induction l as [|[x|] l IH]; cbn [nested_items]; intros H; auto.
+  - split; [apply H; left; reflexivity | apply IH; intros k I; apply H; right; exact I].
+  - apply IH. intros k I. apply H. right. exact I.
+Qed.
+
+Lemma tol_items_nested s l :
+  (forall k, In (Some k) l -> tol_node s k -> in_range_nested s k) -> tol_items s l -> nested_items s l.
+Proof.
+  intros IH T. apply nested_items_of. intros k I. apply IH; [exact I|].
+  apply (tol_items_in s l (Some k) T I).
+Qed.
+
+Theorem tol_nested s n : tol_node s n -> in_range_nested s n.
+Proof.
+  induction n using node_ind'.
+  - cbn. auto.
+  - cbn. auto.
+  - rewrite tn_group, irn_group. intros (A & B & C & D & E).
+    split; [exact A|]. split; [exact B|]. split; [eapply chain_all_inside; [|exact C]; lia|].
+    destruct b as [x|]; [|exact I]. apply H. exact E.
+  - rewrite tn_macro, irn_macro. intros (A & B & C). split; [exact A|]. split; [exact B|].
+    destruct a as [[sp l]|]; [|exact I]. destruct C as [C T]. cbn [arg_items] in H.
+    split; [eapply chain_all_inside; [|exact C]; lia | apply tol_items_nested; assumption].
+  - rewrite tn_env, irn_env. intros (A & B & C & D & E & F).
+    split; [exact A|]. split; [exact B|]. split; [|split].
+    + apply all_inside_app; [|eapply chain_all_inside; [|exact C]; lia].
+      destruct a as [[sp l]|]; cbn [arg_items]; [|exact I]. eapply chain_all_inside; [|apply E]; lia.
+    + destruct a as [[sp l]|]; [|exact I]. cbn [arg_items] in H. apply tol_items_nested; [assumption|apply E].
+    + destruct b as [x|]; [|exact I]. apply H0. exact F.
+  - rewrite tn_specials, irn_specials. intros (A & B & C). split; [exact A|]. split; [exact B|].
+    destruct a as [[sp l]|]; [|exact I]. destruct C as [C T]. cbn [arg_items] in H.
+    split; [eapply chain_all_inside; [|exact C]; lia | apply tol_items_nested; assumption].
+  - rewrite tn_math, irn_math. intros (A & B & C & D & E).
+    split; [exact A|]. split; [exact B|]. split; [eapply chain_all_inside; [|exact C]; lia|].
+    destruct b as [x|]; [|exact I]. apply H. exact E.
+  - rewrite tn_list, irn_list. intros [A T]. split; [|apply tol_items_nested; assumption].
+    destruct a as [x|], b as [y|]; auto. destruct A as (A & B & C).
+    split; [exact A|]. split; [exact B|]. eapply chain_all_inside; [|exact C]; lia.
+Qed.
+
+(** the tolerant clause of C01, for every string and every context *)
+Theorem parse_top_tolerant_nested s cx n p :
+  parse_top s true cx (walker_state cx) = Ok (ONode (Some n)) p -> in_range_nested s n.
+Proof.
+  intros H. apply parse_top_tolerant in H. destruct H as (_ & n' & E & T).
+  injection E as <-. apply tol_nested. exact T.
+Qed.
+
+(** the former counterexample: the placeholder of the missing [r()] argument of
+    [\,] now sits at 2, inside the macro's span (0,2) *)
+Example tolerant_nested_former_witness :
+  exists items p,
+    parse_top s_required true cx_required (walker_state cx_required)
+      = Ok (ONode (Some (NList (Some 0) (Some 4) items))) p /\
+    exists m po, nth_error items 0 = Some (Some (NMacro 0 2 m [44%N] po
+                                     (Some ([[114; 40; 41]%N], [Some (NList (Some 2) (Some 2) [])])))).
+Proof. vm_compute. eexists _, _. split; [reflexivity|]. eexists _, _. reflexivity. Qed.
